@@ -43,11 +43,15 @@ def perturb(e, rnd, lib):
         n = rnd.choice(nodes)
         t = lib.xsd_type_name(type(n))
         table = [a for a in ref.attr_table(t) if a[1] is not None and a[0] != 'name'] if t in ref.ALL else []
-        kind = rnd.choice(['set', 'set', 'overwrite', 'remove', 'value', 'uncheck'])
+        kind = rnd.choice(['set', 'overwrite', 'remove', 'remove', 'value', 'uncheck'])
         if kind in ('set', 'overwrite', 'remove') and table:
             an, at, req = rnd.choice(table)
             key = an.replace('-', '_')
             if kind == 'remove':
+                present = [a for a in table if a[0] in n.attributes]
+                if present and rnd.random() < 0.7:
+                    an, at, req = rnd.choice(present)
+                    key = an.replace('-', '_')
                 if an not in n.attributes:
                     # set then remove, so that a removed attribute exists in the history
                     forms = [f for f in ref.valid_forms(at) if ref.valid(at, f)]
@@ -196,10 +200,10 @@ def run_shard(shard, tier, seed):
             el = ref.gen_el(n, rnd, depth, {'pattr': rnd.choice([0.2, 0.6]), 'maxkids': 4,
                                            'skip_attrs': ('xml:lang', 'xml:space', 'name'),
                                            'skip_elements': ('link', 'opus', 'part-link', 'miscellaneous-field')})
-            route = rnd.choice(['api', 'api', 'parser'])
+            route = rnd.choice(['api', 'api-kw', 'api-kw', 'parser'])
             try:
-                if route == 'api':
-                    e = docs.build_api(el, lib, check=True)
+                if route.startswith('api'):
+                    e = docs.build_api(el, lib, check=True, kw_attrs=(route == 'api-kw'))
                 else:
                     tmp.write(docs.to_text(el))
                     r = lib.call(parse_musicxml, tmp.name)
@@ -234,7 +238,7 @@ def replay_case(rp):
     kinds = set()
     for s in range(8):
         rnd = random.Random(s)
-        e = docs.build_api(el, lib, check=True)
+        e = docs.build_api(el, lib, check=True, kw_attrs=(rp['case'].get('route') == 'api-kw'))
         desc = perturb(e, rnd, lib)
         check_tree(e, desc, rnd, lib, viol, collections.Counter(), case)
     kinds = {v['sig']['kind'] for v in viol}
